@@ -23,7 +23,7 @@ ASSUMPTIONS = ['numpy, scipy.ndimage.find_objects, rasterio.features.shapes and 
                'a state is the instance __dict__; equal digests have equal futures',
                'label arguments are drawn from the (at most 3) smallest current labels plus one fresh label']
 
-READS = ['labels', 'nlabels', 'max_label', 'slices', 'bbox', 'areas', 'segments', 'polygons',
+READS = ['shape', 'labels', 'nlabels', 'max_label', 'slices', 'bbox', 'areas', 'segments', 'polygons',
          'missing_labels', 'is_consecutive', 'background_area', 'data_ma', '_raw_slices',
          'deblended_labels', 'deblended_labels_map', 'deblended_labels_inverse_map']
 
@@ -179,6 +179,8 @@ class System:
                     ops.append(('remove_masked_labels', name, po, rl))
         ops.append(('set_data', 'flip'))
         ops.append(('set_data', 'zeros'))
+        ops.append(('set_data', 'grow'))      # a new array of a DIFFERENT shape (one more row and column)
+        ops.append(('set_data', 'transpose'))  # different shape for non-square arrays
         ops.append(('copy',))
         return ops
 
@@ -252,7 +254,15 @@ class System:
                         report('caller-mask-modified', 'remove_masked_labels', None, None)
                     ref = self._remove_masked(ref, mask, po, rl)
                 elif name == 'set_data':
-                    new = ref[::-1, ::-1].copy() if op[1] == 'flip' else np.zeros_like(ref)
+                    if op[1] == 'flip':
+                        new = ref[::-1, ::-1].copy()
+                    elif op[1] == 'grow':
+                        new = np.zeros((ref.shape[0] + 1, ref.shape[1] + 1), dtype=ref.dtype)
+                        new[1:, :-1] = ref
+                    elif op[1] == 'transpose':
+                        new = ref.T.copy()
+                    else:
+                        new = np.zeros_like(ref)
                     s.data = new
                     ref = new.copy()
                     st.child_pixels = {}
@@ -336,7 +346,10 @@ class System:
         def bad(clause, obs, want, detail=''):
             report(clause, site if site else attr, obs, want, detail)
 
-        if attr == 'labels':
+        if attr == 'shape':
+            if tuple(val) != tuple(ref.shape):
+                bad('attr-shape', val, ref.shape)
+        elif attr == 'labels':
             if not np.array_equal(val, exp['labels']):
                 bad('attr-labels', val, exp['labels'])
             elif np.asarray(val).dtype != ref.dtype:
